@@ -120,12 +120,6 @@ package rtpconn
 //@
 //@ -- ------------------------------------------------------------------ forwarding path (C01-C04)
 //@ -- assumed contracts of what Write calls outside the repository
-//@ iface conn.UpTrack.Codec
-//@   why conn.UpTrack: returns the codec capability of the remote track; an observer
-//@   pure
-//@ iface conn.UpTrack.RequestKeyframe
-//@   why sends a PLI upstream; touches the up track only
-//@   modifies nothing
 //@ extern (*sync.Pool).Get
 //@   why sync.Pool: returns some previously Put value or the result of New; galene only ever puts buffers obtained from packetBufPool.New
 //@        (make([]byte, packetcache.BufSize)) back, and a buffer is not used after Put (pool discipline, assumed)
@@ -235,13 +229,6 @@ package rtpconn
 //@   ensures input-kept: forall k int :: 0 <= k && k < len(buf) ==> buf[k] == old(buf[k])
 //@
 //@ -- ------------------------------------------------------------------ retransmission (C03)
-//@ iface conn.UpTrack.GetPacket
-//@   why conn.UpTrack: copies a cached packet into result and returns its length, or returns 0 (and may schedule an upstream NACK);
-//@        the cache stores each packet under the sequence number in its own header (rtpreader.readLoop stores
-//@        packet.SequenceNumber with the bytes it was parsed from; packetcache.Get returns exactly a stored packet, C05)
-//@   modifies full(result)
-//@   ensures length: int(result0) <= len(result) && result0 <= 1504
-//@   ensures own-seqno: result0 >= 4 ==> ((uint16(result[2]) << 8) | uint16(result[3])) == seqno
 //@ extern (github.com/pion/rtcp.NackPair).Range
 //@   why pion/rtcp: calls f for the packet id and for each set bit of the bitmask, until f returns false; effects are those of f
 //@   modifies *
@@ -523,10 +510,6 @@ package rtpconn
 //@   assert at call AddToChatHistory recorded: m$1.Type == "chat" && m$1.Dest == "" && arg_source == m$1.Source && same(arg_user, m$1.Username)
 //@
 //@ -- ------------------------------------------------------------------ what a subscriber is offered (a per-function piece of C07; C07 itself is not claimed)
-//@ iface conn.UpTrack.Kind
-//@   why conn: the media kind of a track is fixed when the track is created
-//@   pure
-//@   reads none
 //@
 //@ func requestedTracks$1
 //@   safe
